@@ -178,12 +178,12 @@ class DeferredFileWriter(metaclass=Singleton):
         """
         Append the contents of tmp_path to final_path and remove tmp_path.
         """
-        if 'b' in mode:
-            tmp_mode = 'rb'
-        else:
-            tmp_mode = 'r'
-        with _open(str(final_path), mode=mode) as final_file, _open(tmp_path, mode=tmp_mode) as tmp_file:
-            final_file.write(tmp_file.read())
+        # The temporary file holds exactly the bytes to append, whatever
+        # encoding and newline translation it was opened with. Reading it back
+        # as text would decode it with the default encoding and translate its
+        # newlines.
+        with _open(str(final_path), mode='ab') as final_file, _open(tmp_path, mode='rb') as tmp_file:
+            shutil.copyfileobj(tmp_file, final_file)
         os.remove(tmp_path)
 
     def close(self):
